@@ -1,5 +1,7 @@
 package graphql
 
+import "errors"
+
 type SchemaConfig struct {
 	Query        *Object
 	Mutation     *Object
@@ -96,6 +98,9 @@ func NewSchema(config SchemaConfig) (Schema, error) {
 	initialTypes = append(initialTypes, config.Types...)
 
 	for _, ttype := range initialTypes {
+		if ttype == nil {
+			return schema, errors.New("Schema types must not contain nil.")
+		}
 		if ttype.Error() != nil {
 			return schema, ttype.Error()
 		}
@@ -203,6 +208,9 @@ func (gq *Schema) AddImplementation() error {
 //Edited. To check add Types at RunTime..
 //Append Runtime schema to typeMap
 func (gq *Schema) AppendType(objectType Type) error {
+	if objectType == nil {
+		return errors.New("Cannot append a nil type.")
+	}
 	if objectType.Error() != nil {
 		return objectType.Error()
 	}
